@@ -58,6 +58,7 @@ Inductive cop :=
 | UnregSub (f : option value) (req : list (option spec)) (p : spec) (n : name)
 | RegHandler (f : value) (req : list (option spec)) (n : name) (i : info)
 | UnregHandler (f : option value) (req : list (option spec)) (n : name)
+| UtilityBoth (unreg : bool) (c : value) (p : spec) (n : name)   (* component AND factory= given: TypeError *)
 | Reinit.
 
 Definition pn_eqb (a b : spec * name) : bool := Nat.eqb (fst a) (fst b) && Nat.eqb (snd a) (snd b).
@@ -267,6 +268,7 @@ Section Components.
     | UnregSub f req p n => unregisterSub st f req p n
     | RegHandler f req n i => registerHandler st f req n i
     | UnregHandler f req n => unregisterHandler st f req n
+    | UtilityBoth _ _ _ _ => (st, RTypeError, [])       (* "Can't specify factory and component." *)
     | Reinit => (cinit, RNone, [])
     end.
 
